@@ -546,7 +546,9 @@ LEVEL_TEXT = (
     "layout'): CFG must-pass-through over _materialize and ChunksFreeze.lower_once showing that the advertised chunks - "
     "captured from the raw expression before any rewrite - are either matched or restored by a rechunk on every path to "
     "the output-key pin / barrier result, plus coverage checks of the alias layers and of the collection's metadata "
-    "delegation. Per-operation chunk formulas and block sizes at run time are arithmetic and not decided."
+    "delegation; the grid contract's transitivity and the chunks-equality guard of consumer-blind rewrites; writer/reader agreement between every "
+    "hand-built task (and blockwise-family kernel call) and the def of its kernel. Per-operation chunk formulas and block sizes at run "
+    "time are arithmetic and not decided."
 )
 LEVEL_NOTE = (
     "Trusted: CPython ast, the engine's CFG (statement-level, exceptional edges for try/finally) and def-use. Assumes "
